@@ -10,7 +10,7 @@
    [carriable v m]         abridged: 4 | len m and len m / 4 < 2^24 (3-byte word count);
                            intermediate: len m < 2^32 (no alignment requirement in the code). *)
 From Coq Require Import ZArith NArith List.
-From MTV Require Import Base.Bytes Base.Outcome Transport.Framing Transport.FramingProofs.
+From MTV Require Import Base.Bytes Base.Outcome Transport.Framing Transport.FramingProofs Transport.TrDelivery.
 Import ListNotations.
 Open Scope N_scope.
 
@@ -147,3 +147,13 @@ Example C08_eof_instance :
   (* a stream that ends inside a frame is an error of the other kind, not EOF, not a message *)
   read_stream [[239; 2; 1; 2]; [3]] = Some {| d_mode := Some Abridged; d_msgs := []; d_end := EOther |}.
 Proof. vm_compute. repeat split; reflexivity. Qed.
+
+(* The client's reader over a whole connection: the frames a peer wrote in the connection's mode come
+   out of transport.ReadMsg as exactly those payloads, in order, followed by end-of-stream, under every
+   segmentation - provided none of them is four bytes long (those are error codes, C08_errcode). *)
+Theorem C08_client_delivery : forall v msgs chunks,
+  Forall (carriable v) msgs -> Forall (fun m => blen m <> 4) msgs ->
+  concat chunks = concat (map (frame v) msgs) ->
+  tr_stream v chunks = Some (map TData msgs, EEof).
+Proof. exact tr_delivery. Qed.
+Print Assumptions C08_client_delivery.
